@@ -671,10 +671,13 @@ impl Model {
         let exp_store: Vec<(u32, u64, Option<Dur>, bool)> =
             self.keys.iter().map(|(k, e)| (*k, e.id, e.expiry, self.soft.contains(k))).collect();
         if exp_store != o.store {
+            // same entries (key, id, mark), only deadlines differ?
+            let strip = |v: &Vec<(u32, u64, Option<Dur>, bool)>| v.iter().map(|e| (e.0, e.1, e.3)).collect::<Vec<_>>();
+            let only_deadlines = strip(&exp_store) == strip(&o.store);
             out.push(Mis {
                 aspect: "store",
                 class: "store-mismatch".into(),
-                ctx: String::new(),
+                ctx: if only_deadlines { "only-deadlines-differ".to_string() } else { String::new() },
                 msg: format!("store entries (key,id,expiry,soft) {:?}, model {:?}", o.store, exp_store),
             });
         }
@@ -1327,6 +1330,16 @@ impl Online for SeqDriver {
             simsync::sim::await_idle(simsync::sim::Role::Worker);
             let o = exec::observe(cache, "step");
             self.model.compare(&o, &mut mis);
+            // "every accepted put leaves the total at or below the limit" -- also when the total was
+            // already over the limit before it (a state only weight-raising upserts produce)
+            if matches!(op, Op::Put { .. }) && st == Some(St::Accepted) && pre.bad_limit && o.weight_used > self.model.cfg.weight {
+                mis.push(Mis {
+                    aspect: "limit",
+                    class: "over-limit-after-accepted-put".into(),
+                    ctx: String::new(),
+                    msg: format!("the put was acknowledged Accepted and leaves total_weight_used() = {} with limit {}", o.weight_used, self.model.cfg.weight),
+                });
+            }
             if matches!(op, Op::AwaitIdle(RoleName::Sweeper) | Op::Rotate) {
                 self.model.sweep_semantics(&pre, &o, matches!(op, Op::Rotate), &mut mis);
             }
